@@ -76,7 +76,14 @@ def confirm(mut):
 
 def check(mut, pids):
     patch = os.path.abspath(os.path.join(mut, "patch.diff"))
-    d = scratch(patch)
+    outf = os.path.join(mut, "check_%s.json" % "_".join(pids))
+    if os.path.exists(outf):
+        os.remove(outf)
+    try:
+        d = scratch(patch)
+    except SystemExit as ex:
+        json.dump({"error": str(ex)[:300]}, open(outf, "w"), indent=1)
+        raise
     out_all = {}
     try:
         shutil.copy("/repo/go.sum", os.path.join(d, "go.sum"))
